@@ -21,7 +21,7 @@ func Bound(t *Truth, n *model.Node, receiver string) time.Duration {
 		b = n.GroupInterval
 	}
 	faults, maxDelay := t.ReceiverMaxDisturbance(receiver)
-	b += time.Second + 2*maxDelay
+	b += time.Second + 2*maxDelay + t.R.Scenario.DispatchStartDelay
 	if faults {
 		to := n.GroupInterval
 		if to < pipelineMinTimeout {
